@@ -261,7 +261,7 @@ def _cfg():
 
 
 def search_roundtrip(ctx):
-    ctx.given(_cfg(), ctx.n(600, 20_000))
+    ctx.given(_cfg(), ctx.n(600, 10_000))
 
 
 def search_designs(ctx):
